@@ -58,7 +58,15 @@ def check(m, run):
     with run.corroborating(okp('OT3'), 'OT3', rules=('KC1.check-structure',)):
         kc1(m, run)
     ly4(m, run)
-    al8(m, run)
+    # normalisation is decided exactly on rational knot vectors (NM2); the rule that reads the element map of the comprehension corroborates
+    n_nm = len(run.obs)
+    try:
+        _sd3.nm2(m, run)
+    except AnalysisError as ex:
+        run.error(str(ex))
+    nm_ok = len(run.obs) > n_nm and all(o.ok for o in run.obs[n_nm:])
+    with run.corroborating(nm_ok, 'NM2', rules=('AL8.normalize-affine',)):
+        al8(m, run)
     with run.corroborating(okp('OT1'), 'OT1', rules=('HO1.half-open-span',)):
         ho1(m, run)
     with run.corroborating(okp('OT4', 'BF3', 'BF4'), 'OT4/BF3/BF4', rules=('HO2.half-open-support',)):
